@@ -25,8 +25,20 @@ QUERIES = [
     "sorted",
     "S->X3",
     "X2->S",
+    # reverse directions (a memo keyed by an unordered pair would confuse them), and a
+    # statically declared system in which the planner is asymmetric: PO -> VA can be
+    # planned, VA -> PO cannot (W2 = 4 W1, CU = W1^3, PO = 2 CU, VA = 2 W2^3)
+    "m->X1",
+    "X3^2->Z",
+    "PO->VA",
+    "VA->PO",
+    "VA==PO",
 ]
 QUICK_QUERIES = QUERIES
+# the property is about memoisation against declarations; the synthetic system carries it,
+# so only the SI module is loaded: failing path searches (the common case here) walk the
+# whole definition graph and are ~6x cheaper than with all seventeen modules
+MODULES = ("measured.si",)
 
 
 class Ctx:
@@ -47,6 +59,18 @@ def prepare(w):
     for i in range(1, 5):
         Length.unit(f"verif x{i}", f"vx{i}")
     Area.unit("verif z", "vz")
+    from measured import Volume
+
+    w1 = Length.unit("verif w1", "vw1")
+    w2 = Length.unit("verif w2", "vw2")
+    cu = Volume.unit("verif cu", "vcu")
+    po = Volume.unit("verif po", "vpo")
+    va = Volume.unit("verif va", "vva")
+    w2.equals(4 * w1)
+    cu.equals(1 * w1**3)
+    po.equals(2 * cu)
+    va.equals(2 * w2**3)
+    w.clear_caches()
     w.base = w.snapshot()
     _PREPARED = True
 
@@ -64,6 +88,7 @@ class C08Model(Model):
         U = w.m.Unit._by_name
         c.X = {i: U[f"verif x{i}"] for i in range(1, 5)}
         c.Z = U["verif z"]
+        c.PO, c.VA = U["verif po"], U["verif va"]
         c.S = None
         from measured.si import Meter, Second
 
@@ -76,6 +101,9 @@ class C08Model(Model):
         evs = [["d", i] for i in range(len(self.decls)) if i not in c.decls]
         evs += [["q", j] for j in range(len(self.queries))]
         return evs
+
+    def final_events(self, c):
+        return [["q", j] for j in range(len(self.queries))]
 
     def _declare(self, c, i):
         X, Z, m = c.X, c.Z, c.m
@@ -123,6 +151,16 @@ class C08Model(Model):
                 v = ((1 * X[1]) + (1 * X[3])).magnitude
             elif name == "sorted":
                 v = [q.magnitude for q in sorted([1 * X[1], 3 * X[3], 1 * X[2]])]
+            elif name == "m->X1":
+                v = (1 * m).in_unit(X[1]).magnitude
+            elif name == "X3^2->Z":
+                v = (1 * X[3] ** 2).in_unit(Z).magnitude
+            elif name == "PO->VA":
+                v = (1 * c.PO).in_unit(c.VA).magnitude
+            elif name == "VA->PO":
+                v = (1 * c.VA).in_unit(c.PO).magnitude
+            elif name == "VA==PO":
+                v = (64 * c.VA) == (1 * c.PO), (1 * c.PO) == (64 * c.VA)
             elif name == "S->X3":
                 if c.S is None:
                     return ["undefined"]
@@ -192,7 +230,7 @@ import sys, json
 import mc
 from mc.world import get_world
 from mc.checks import c08
-w = get_world()
+w = get_world(c08.MODULES)
 model = c08.C08Model()
 hist = json.load(sys.stdin)
 c = model.init(w)     # defines the synthetic units; no restore happens after this point
@@ -224,13 +262,24 @@ def validate_fresh(w, model, hists):
 
 
 def run(rep, tier):
-    w = get_world()
+    w = get_world(MODULES)
     thorough = tier == "thorough"
     model = C08Model()
     prepare(w)
-    depth = 5 if thorough else 4
+    # the probe level (final_events) adds one observing query to every state of the deepest
+    # level, so depth d finds every violation that needs d events and then a query
+    depth = 4 if thorough else 3
     ex = HistoryExplorer(w, model, max_depth=depth, time_cap=2400 if thorough else 200).run()
     rep.extend(ex.violations)
+    # second exploration, deeper, over the core of the menu: the chain X1 - X2 - X3 - m with
+    # its redundant shortcut, declared in any order with end-to-end queries in between
+    # (a stale "no path" between two units that a LATER declaration bridges indirectly
+    # needs two declarations, a query, the bridging declaration and a query again)
+    core = C08Model(queries=["X1->m", "m->X1", "X1->X3", "X1==8*X3"], decls=DECLS[:4])
+    core.tag = "core"
+    cdepth = 6 if thorough else 5
+    ex2 = HistoryExplorer(w, core, max_depth=cdepth, time_cap=2400 if thorough else 200).run()
+    rep.extend(ex2.violations)
     # declarations-then-query histories (the reference runs) + sampled deepest histories,
     # each in its own brand-new interpreter, where no restore ever happens
     hists = []
@@ -246,11 +295,17 @@ def run(rep, tier):
         hists += last[::stride][: (150 if thorough else 30)]
     nvalid = validate_fresh(w, model, hists)
     cov = ex.coverage()
+    cov2 = ex2.coverage()
     rep.cov.update(cov)
+    rep.cov["states"] = cov["states"] + cov2["states"]
+    rep.cov["transitions"] = cov["transitions"] + cov2["transitions"]
+    rep.cov["core_exploration"] = {"declarations": core.decls, "queries": core.queries, **cov2}
+    if ex2.capped:
+        rep.cov["capped"] = f"core: {ex2.capped}"
     rep.cov.update(
         {
             "traces_validated_against_impl": nvalid,
-            "exhaustive": ex.capped is None,
+            "exhaustive": ex.capped is None and ex2.capped is None,
             "declaration_menu": model.decls,
             "query_menu": model.queries,
             "samples": [model.describe(h) for h in (ex.last_level[:4] or [[]])],
@@ -265,8 +320,10 @@ def run(rep, tier):
 
 
 def replay(obj, kind=None):
-    w = get_world()
+    w = get_world(MODULES)
     model = C08Model()
+    if obj.get("model") == "core":
+        model = C08Model(queries=["X1->m", "m->X1", "X1->X3", "X1==8*X3"], decls=DECLS[:4])
     hist = obj["history"]
     c = model.init(w)
     for ev in hist:
